@@ -56,6 +56,7 @@ type Env struct {
 	inOld   bool
 	lookup  func(name string) (SV, bool)
 	absIdx  map[string]Term // "sliceTerm|indexTerm" -> absolute index variable (trigger normalisation)
+	addrOf  func(name string) (SV, bool)
 }
 
 func (env *Env) fail(f string, a ...any) SV {
@@ -223,6 +224,14 @@ func (env *Env) elab(e Expr) SV {
 		n.inOld = true
 		return n.elab(x.X)
 	case *EUnary:
+		if x.Op == "&" {
+			if id, ok := x.X.(*EIdent); ok && env.addrOf != nil {
+				if v, ok := env.addrOf(id.Name); ok {
+					return v
+				}
+			}
+			return env.fail("cannot take the address of %s in a specification", x.X.String())
+		}
 		v := env.elab(x.X)
 		switch x.Op {
 		case "!":
@@ -232,6 +241,7 @@ func (env *Env) elab(e Expr) SV {
 		case "*":
 			return env.deref(v, e)
 		}
+
 	case *EBinary:
 		return env.elabBinary(x)
 	case *ECond:
@@ -473,6 +483,9 @@ func (env *Env) elabBinary(x *EBinary) SV {
 			return env.fail("comparison of different sorts %s / %s in %s", a.sort, b.sort, x.String())
 		}
 		t := eq(a.t, b.t)
+		if a.kind == "gmap" && b.kind == "gmap" {
+			t = and(eq(a.t, b.t), eq(a.dom, b.dom))
+		}
 		if x.Op == "!=" {
 			t = not(t)
 		}
@@ -595,6 +608,12 @@ func (env *Env) elabSel(x *ESel) SV {
 	case "pkg":
 		if obj := v.pkg.Scope().Lookup(x.Name); obj != nil {
 			return env.goObject(obj)
+		}
+		if g, ok := env.tr.prog.CS.Ghosts[x.Name]; ok && g.PkgPath == v.pkg.Path() {
+			return env.ghostVar(g)
+		}
+		if sf, ok := env.tr.prog.CS.SpecFuncs[x.Name]; ok && sf.PkgPath == v.pkg.Path() {
+			return SV{kind: "fn", fn: env.tr.specFuncRef(sf), sort: "fn"}
 		}
 		return env.fail("unknown %s.%s", v.pkg.Name(), x.Name)
 	case "type":
@@ -813,6 +832,35 @@ func (env *Env) elabCall(x *ECall) SV {
 					idx = n
 				}
 				return env.tr.lastCall(env, fid.Name, idx)
+			case "update":
+				m := env.elab(x.Args[0])
+				k := env.elab(x.Args[1])
+				v := env.elab(x.Args[2])
+				if m.kind != "gmap" {
+					return env.fail("update() on non-ghost-map")
+				}
+				if v.sort == "nil" {
+					v = env.nilOf(env.goSV("", m.vty))
+				}
+				r := m
+				r.t = store(m.t, k.t, v.t)
+				r.dom = store(m.dom, k.t, "true")
+				r.name = ""
+				return r
+			case "remove":
+				m := env.elab(x.Args[0])
+				k := env.elab(x.Args[1])
+				if m.kind != "gmap" {
+					return env.fail("remove() on non-ghost-map")
+				}
+				r := m
+				r.dom = store(m.dom, k.t, "false")
+				r.name = ""
+				return r
+			case "chr":
+				v := env.elab(x.Args[0])
+				env.vc.declFun("chr", "(declare-fun chr (Int) Str)\n(assert (forall ((c Int)) (! (and (= (slen (chr c)) 1) (=> (and (<= 0 c) (< c 256)) (= (sat (chr c) 0) c))) :pattern ((chr c)))))")
+				return SV{t: app("chr", v.t), sort: "Str", ty: types.Typ[types.String]}
 			case "lastres":
 				fid, ok := x.Args[0].(*EIdent)
 				if !ok {
